@@ -252,6 +252,10 @@ var c16Stmts = []string{
 	"u",
 	"if t == 5 1 else 2",
 	"if t == 6 1 else 2",
+	// two statements on one line (the parser takes them as two inputs of one chunk; all modes must still agree)
+	"write(\"p\") write(\"q\")",
+	"1 / 0 write(\"after-error\")",
+	"return 7 write(\"after-return\")",
 	"if #\"a\" == 1 1 else 2",
 	"if #\"a\" == 2 1 else 2",
 	"if #\"a\" == 1 3",
@@ -377,7 +381,7 @@ func init() {
 		ID:    "C16",
 		Level: "model_checking",
 		Rule: "(a) explicit-state search over all sequences of length <= 4 (quick) / 5 (thorough) of 21 script lines (one-line statements, block openers / closers / else, an array literal and a string split over lines, strings containing { [ } ; an escaped quote and a backslash, comments containing { \" [, blank lines) fed to the real read-eval loop through the real file reader (with and without final newline) and through an in-memory line reader (REPL style) with a recording parser: the inputs handed to the parser must be, token for token, the statements a lexer-aware splitter finds; " +
-			"(b) every script of <= 2 (quick) / 3 (thorough) statements from a 40-statement alphabet (expressions of every value kind, function definitions and calls, multi-line blocks, loops, strings with every special character, a multi-line string, comments, a multi-line array literal, a runtime error, dependent statements) through the built cmd/calc binary in -eval, piped-REPL and file mode (with and without final newline): each mode's output must be what in-process statement-by-statement execution predicts. states = distinct (nesting depth, open string, pending text) accumulator states of the model; transitions = lines fed",
+			"(b) every script of <= 2 (quick) / 3 (thorough) statements from a 43-statement alphabet (expressions of every value kind, function definitions and calls, multi-line blocks, loops, strings with every special character, a multi-line string, comments, a multi-line array literal, a runtime error, dependent statements) through the built cmd/calc binary in -eval, piped-REPL and file mode (with and without final newline): each mode's output must be what in-process statement-by-statement execution predicts. states = distinct (nesting depth, open string, pending text) accumulator states of the model; transitions = lines fed",
 		Assumptions:     []string{"ill-formed line sequences (a closer without opener, an unfinished block at end of file) are skipped and counted", "runtime error reports are compared on their first line only (addresses and instruction numbers differ between modes)"},
 		NeedsCalcBinary: true,
 		Exec: func(payload string) (string, string) {
